@@ -3,7 +3,7 @@
 (M) TLC exhausts specs/backup/Backup.tla (CreateBackup / RestoreBackup as the code is now: per-file
     copy loop with skippable source-read failures, fatal backup-write failures, skip-ratio check,
     manifest; restore loop that counts failed files and fails at the end) over every tree (non-empty
-    subset of the model files) x every per-file fault in {none, rb, wb, rr, wr} x filler counts and
+    subset of the model files) x every per-file fault in {none, rb, wb, wbt, rr, wr, wrt} x filler counts and
     checks every clause of the property.  Negative control: the same model with the pre-0fc80ea
     log-and-continue restore loop must be rejected (RestoreSound violated).
 (G) the same run emits one scenario per terminal state with the predicted outcome; the Go driver
@@ -82,9 +82,9 @@ def run(ctx):
     ctx.note("exhaustive", True)
     ctx.note("rule", "every non-empty subset of %s model files (2 databases, nested hour directories, an Iceberg table "
              "metadata directory) x every assignment of one fault in {none, read@backup, write@backup, read@restore, "
-             "write@restore} per file x filler counts %s; each fault realised as fail-before-first-byte and as "
+             "write@restore (permanent | first attempt only)} per file x filler counts %s; each fault realised as fail-before-first-byte and as "
              "fail-after-half-the-bytes (%s); distinct_nontrivial counts (tree, fault vector, filler, fail mode) with at "
-             "least one fault" % (("4", "{0,16}", modes) if ctx.quick() else ("6", "{16}", modes)))
+             "least one fault" % (("4", "{0,16}", modes) if ctx.quick() else ("5", "{16}", modes)))
     for s in (r.get("samples") or []):
         ctx.sample(s)
     ctx.assume("a storage fault is an error returned by ReadTo/Read/WriteReader/Write of the storage.Backend (before any "
